@@ -50,6 +50,7 @@ struct vs_plan {
     enum vs_wire wire;
     long hdr_split_out, hdr_split_in, frame_split_out, frame_split_in, frames_out, frames_in;
     long refused_mid_frame;             /* a refusal hit while a frame was partly written */
+    long long bytes_in, bytes_out;      /* bytes moved by recv/send on data sockets inside scopes using this plan */
 };
 
 struct vs_scope {
